@@ -1,16 +1,22 @@
 (* C02 instance: x/evmutil (no begin or end blocker).
-   Operations: the four conversion messages (or direct keeper calls), ERC20 transfers and mints,
-   bank sends, a governance parameter change.
+   Operations: the four conversion messages (or direct keeper calls), ERC20 transfers, mints, approvals and
+   transferFroms, bank sends, a governance parameter-change proposal (validated like the real handler does).
    Invariant = Proofs.Evmutil.Inv:
      1-3. the registry of deployed cosmos-coin contracts is injective and within the allocated range
           (needed by 4)
      4.   for every cosmos coin: module account balance = total supply of its ERC20 wrapper
                                   — "cosmos-coins-fully-backed" (the one invariant evmutil registers)
-     5.   for every conversion pair: coin supply (x 10^10 for bep3 assets) <= ERC20 tokens held by the
-          module's EVM address      — BackedCoinsInvariant (defined in invariants.go, NOT registered:
-                                       the RegisterRoute line is commented out; kept, in its scaled form)
-   Guard [op_wf]: the module account signs no message (it has no key).  [env_wf]: the module account
-   is a blocked bank recipient; conversion pairs have distinct denoms. *)
+     5.   for every conversion pair of the table (OpenZeppelin bytecode): coin supply (x 10^10 for bep3 assets)
+          <= ERC20 tokens held by the module's EVM address
+                                  — BackedCoinsInvariant (defined in invariants.go, NOT registered:
+                                    the RegisterRoute line is commented out; kept, in its scaled form)
+     6.   nobody holds an allowance over those locked tokens
+     7.   for a table contract whose transfer() emits Approval no coin of its denom exists
+          (every conversion through it is refused)
+     8.   the enabled pairs are pairs of the table
+   Guard [op_wf]: the module account and the zero address sign no message (they have no key); a pair list
+   that passes the validators of the parameter-change path consists of table pairs.  [env_wf]: the module
+   account is a blocked bank recipient; table pairs have distinct denoms; the module is not the zero address. *)
 From Coq Require Import String.
 From Kava Require Import Base.Prelude Model.World Model.WorldG Proofs.WorldG.
 From Kava Require Import Model.Erc20 Model.Evmutil Proofs.Evmutil.
@@ -30,7 +36,7 @@ Qed.
 Definition evm_e0 : env := mk_env 3 3 2 [false; false; true] [0; 1]%nat [true; false; false].
 Definition evm_s0 : state :=
   mk_state [[0; 0; 500]; [0; 0; 40]; [0; 0; 0]] [0; 0; 540]
-           [(30000000007, [30000000007; 0; 0]); (90, [50; 40; 0])] [] [true; true] [false; false; true].
+           [(30000000007, [30000000007; 0; 0]); (90, [50; 40; 0])] [] [(0, 0); (1, 1)]%nat [2%nat].
 Definition evm_blk : list (unit * list op) :=
   [(tt, [ConvERC20ToCoin false 0 1 0 25000000003; ConvCosmosToERC20 false 0 1 2 120; ConvCoinToERC20 false 1 0 0 1]%nat)].
 
@@ -42,15 +48,21 @@ Example evmutil_nonvacuous :
   end.
 Proof.
   split; [|split; [|split]].
-  - split; [reflexivity|]. intros c c' Hc Hc' H. cbn in Hc, Hc'.
+  - split; [reflexivity|]. split; [|cbn; lia]. intros c c' Hc Hc' H. cbn in Hc, Hc'.
     destruct c as [|[|c]], c' as [|[|c']]; try lia; cbn in H; try reflexivity; discriminate.
   - unfold evmutil_M, m_Inv, Inv. split; [cbn; lia|]. split; [intros d c H; discriminate|].
     split; [intros d d' c H; discriminate|]. split.
-    + intros d. cbn. destruct d as [|[|[|[|d]]]]; reflexivity.
-    + intros c Hc. cbn in Hc. destruct c as [|[|c]]; [vm_compute; discriminate|vm_compute; discriminate|lia].
+    { intros d. cbn. destruct d as [|[|[|[|d]]]]; reflexivity. }
+    split.
+    { intros c Hc _. cbn in Hc. destruct c as [|[|c]]; [vm_compute; discriminate|vm_compute; discriminate|lia]. }
+    split.
+    { intros c Hc _ a. cbn in Hc. destruct c as [|[|c]]; [| |lia]; destruct a as [|a]; reflexivity. }
+    split.
+    { intros c Hc Hk. cbn in Hc. destruct c as [|[|c]]; [discriminate Hk|discriminate Hk|lia]. }
+    repeat constructor; cbn; lia.
   - unfold evm_blk. cbn [good_blocks fst snd]. split; [exact I|]. split; [|intros; exact I].
     intros s1 _. cbn [good_txs].
-    repeat (split; [intros _ _ _; unfold evmutil_M, m_goodT, op_wf; cbn; discriminate|]). exact I.
+    repeat (split; [intros _ _ _; unfold evmutil_M, m_goodT, op_wf; cbn; repeat split; discriminate|]). exact I.
   - vm_compute. repeat split; reflexivity.
 Qed.
 Print Assumptions evmutil_M_ok.
